@@ -4,6 +4,7 @@
 -/
 import PyhamModel.Lemmas.LostCount
 import PyhamModel.Lemmas.HistoryInvariance
+import PyhamModel.Lemmas.ReportedCount
 namespace Pyham
 
 mutual
@@ -88,5 +89,68 @@ theorem C14_long_branch_counts_same_for_same_histories (D D' : Dataset) (hc : D.
     intro j h1 h2
     obtain ⟨hq, hsl⟩ := hs j h1 h2
     rw [hq]; exact sameL_lineages a hsl _
+
+end Pyham
+
+namespace Pyham
+
+mutual
+theorem sameL_reported (want : Bool) (a d : Taxon) : ∀ {l l' : SL}, SameL l l' → ∀ q st,
+    reportedAt want a d q st l = reportedAt want a d q st l'
+  | _, _, .gene _ _, _, _ => rfl
+  | _, _, .grp _ _ _ _ _ _ _ _ hs, q, st => by
+    simp only [reportedAt]
+    rw [sameSubs_reported want a d hs q _]
+theorem sameSubs_reported (want : Bool) (a d : Taxon) : ∀ {x y : List Sub}, SameSubs x y → ∀ q st,
+    reportedAtSubs want a d q st x = reportedAtSubs want a d q st y
+  | _, _, .nil, _, _ => rfl
+  | _, _, .ann_left _ _ _ s, q, st => by simp only [reportedAtSubs]; exact sameSubs_reported want a d s q st
+  | _, _, .ann_right _ _ _ s, q, st => by simp only [reportedAtSubs]; exact sameSubs_reported want a d s q st
+  | _, _, .one i _ _ _ _ hl hs, q, st => by
+    simp only [reportedAtSubs]
+    rw [sameL_reported want a d hl (i :: q) st, sameSubs_reported want a d hs q st]
+  | _, _, .dup i _ _ _ _ _ hc hs, q, st => by
+    simp only [reportedAtSubs]
+    rw [sameCopies_reported want a d hc (i :: q) _, sameSubs_reported want a d hs q st]
+  | _, _, .swap x y _, q, st => by
+    cases x <;> cases y <;> simp only [reportedAtSubs] <;> omega
+  | _, _, .trans _ _ _ h1 h2, q, st => (sameSubs_reported want a d h1 q st).trans (sameSubs_reported want a d h2 q st)
+theorem sameCopies_reported (want : Bool) (a d : Taxon) : ∀ {x y : List SL}, SameCopies x y → ∀ q st,
+    reportedAtCopies want a d q st x = reportedAtCopies want a d q st y
+  | _, _, .nil, _, _ => rfl
+  | _, _, .cons _ _ _ _ hc hs, q, st => by
+    simp only [reportedAtCopies]
+    rw [sameL_reported want a d hc q st, sameCopies_reported want a d hs q st]
+  | _, _, .swap _ _ _, q, st => by simp only [reportedAtCopies]; omega
+  | _, _, .trans _ _ _ h1 h2, q, st => (sameCopies_reported want a d h1 q st).trans (sameCopies_reported want a d h2 q st)
+end
+
+/-- **C14, all four cluster sizes of every vertical comparison, whole files**: same histories -- for ANY two taxa `a`, `d` the
+    same number of duplicated copies and of retained genes (and, by `C14_long_branch_counts_same_for_same_histories`, of gained
+    and lost genes between ancestral nodes) -/
+theorem C14_reported_counts_same_for_same_histories (D D' : Dataset) (hc : D.Consistent) (hc' : D'.Consistent)
+    (hlen : D.fams.length = D'.fams.length)
+    (hs : ∀ i (h1 : i < D.fams.length) (h2 : i < D'.fams.length),
+        (D.fams[i]).1 = (D'.fams[i]).1 ∧ SameL (D.fams[i]).2 (D'.fams[i]).2) :
+    ∃ H H', load D.T D.nm D.file = .ok H ∧ load D'.T D'.nm D'.file = .ok H' ∧ ∀ a d,
+      ((hogsMap H a d).dupl.map (·.2.length)).sum = ((hogsMap H' a d).dupl.map (·.2.length)).sum ∧
+      (hogsMap H a d).retained.length = (hogsMap H' a d).retained.length := by
+  obtain ⟨H, hl, hr⟩ := C06_reported_count_is_the_history D hc
+  obtain ⟨H', hl', hr'⟩ := C06_reported_count_is_the_history D' hc'
+  refine ⟨H, H', hl, hl', ?_⟩
+  intro a d
+  obtain ⟨h1, h2⟩ := hr a d
+  obtain ⟨h1', h2'⟩ := hr' a d
+  refine ⟨?_, ?_⟩
+  · rw [h1, h1']
+    apply sum_map_congr_index _ _ _ _ hlen
+    intro j k1 k2
+    obtain ⟨hq, hsl⟩ := hs j k1 k2
+    rw [hq]; exact sameL_reported true a d hsl _ _
+  · rw [h2, h2']
+    apply sum_map_congr_index _ _ _ _ hlen
+    intro j k1 k2
+    obtain ⟨hq, hsl⟩ := hs j k1 k2
+    rw [hq]; exact sameL_reported false a d hsl _ _
 
 end Pyham
